@@ -297,6 +297,38 @@ def rect_edge_crosser(rng, ring):
     return None
 
 
+def rect_corner_lurker(rng, ring):
+    """a line or thin triangle DISJOINT from the rectangle whose envelope nevertheless overlaps the rectangle's envelope:
+    it passes a corner on the outside, from beside one adjacent side to beyond the other. Aimed at envelope-only
+    short-cuts of the rectangle fast paths (an element "bisected" by the rectangle must intersect; this one is not)."""
+    xs = [p[0] for p in ring]; ys = [p[1] for p in ring]
+    x0, x1, y0, y1 = min(xs), max(xs), min(ys), max(ys)
+    edges = [(ring[i], ring[i + 1]) for i in range(4)]
+    span = max(x1 - x0, y1 - y0, 2)
+    for _ in range(200):
+        cx, sx = rng.choice([(x0, -1), (x1, 1)]); cy, sy = rng.choice([(y0, -1), (y1, 1)])
+        # P beside the vertical side (outside in x, inside the rectangle's y-range side of the corner), Q beyond the horizontal side
+        P = (cx + sx * rng.randint(1, span), cy - sy * rng.randint(0, max(1, (y1 - y0) - 1)))
+        Q = (cx - sx * rng.randint(0, max(1, (x1 - x0) - 1)), cy + sy * rng.randint(1, span))
+        if any(_seg_hits(P, Q, e[0], e[1]) for e in edges):
+            continue
+        if x0 <= P[0] <= x1 and y0 <= P[1] <= y1:
+            continue
+        if rng.random() < 0.6:
+            return ('LineString', [P, Q] if rng.random() < 0.5 else [Q, P])
+        R = (P[0] + sx, P[1] + sy * 0)          # third vertex next to P, still outside
+        R = (Q[0], Q[1] + sy) if R == P else R
+        tri = [P, Q, R, P]
+        if any(_seg_hits(Q, R, e[0], e[1]) or _seg_hits(R, P, e[0], e[1]) for e in edges):
+            continue
+        area2 = (Q[0] - P[0]) * (R[1] - P[1]) - (Q[1] - P[1]) * (R[0] - P[0])
+        if area2 == 0:
+            continue
+        # the rectangle must not be inside the triangle: its corners are on the outside of PQ by construction when no edge is hit
+        return ('Polygon', [tri])
+    return None
+
+
 def rect_pairs(rng):
     """axis-parallel rectangle vs the same polygon with one redundant collinear vertex: every answer must coincide"""
     x0, y0 = rng.randint(-50, 50), rng.randint(-50, 50)
@@ -311,7 +343,8 @@ def rect_pairs(rng):
     a, b = ring[0], ring[1]
     mid = ((a[0] + b[0]) / 2 if (a[0] + b[0]) % 2 else (a[0] + b[0]) // 2, (a[1] + b[1]) / 2 if (a[1] + b[1]) % 2 else (a[1] + b[1]) // 2)
     ring2 = [ring[0], mid] + ring[1:]
-    other = rect_edge_crosser(rng, ring) if rng.random() < 0.45 else None
+    k = rng.random()
+    other = rect_edge_crosser(rng, ring) if k < 0.4 else rect_corner_lurker(rng, ring) if k < 0.6 else None
     if other is None:
         other = G.derive(rng, ('Polygon', [ring]), max(w, h)) if rng.random() < 0.7 else G.gen_geom(rng, 40)
     R1 = G.map_coords(('Polygon', [ring]), f); R2 = G.map_coords(('Polygon', [ring2]), f)
